@@ -8,3 +8,6 @@ for s in "$@"; do
   echo "$M check=$ID seed=$s rc=$RC $(echo "$OUT" | grep '^VIOLATION' | head -1 | cut -c1-120) | $(echo "$OUT" | grep '^\[' | tail -1 | cut -c1-200)"
 done
 git -C /repo checkout -- .
+# the evidence files must never come from a run against a modified tree
+git checkout -- evidence 2>/dev/null
+rm -rf replays
